@@ -212,7 +212,45 @@ def check(run, ctx):
 
     S6 = run.rule("S6", "long-lived helper objects (built in a rule's constructor) re-bind every attribute they accumulate into at the start of each externally called entry method", floor=40,
                   decides="what one file (or one lint call) left in an analyzer/cache cannot leak into the verdict for the next file or call")
-    _s6(run, ctx, L, S6)
+    ll_classes = _s6(run, ctx, L, S6)
+
+    S10 = run.rule("S10", "a memo on a long-lived object (`if <test on self.X>: self.X = v`) whose value is derived from file content is validated against the content, not only a path/identity key", floor=3,
+                   decides="a file edited between two calls on one Linter is judged by its new text (directive lines, line lists and parse results are not served from the previous version)")
+    CONTENT = ("file_content", "read_text", "file_lines", "splitlines")
+    def mentions_content(e, tainted):
+        return any((isinstance(x, ast.Attribute) and x.attr in CONTENT) or (isinstance(x, ast.Name) and (x.id in tainted or x.id in ("content", "source", "source_code", "file_content"))) for x in ast.walk(e))
+    for cq in sorted(ll_classes):
+        for bq in repo.mro(cq):
+            bc = repo.classes.get(bq)
+            if bc is None or not bq.startswith("src."):
+                continue
+            for m in sorted(bc.methods.values(), key=lambda x: x.qual):
+                if m.name == "__init__":
+                    continue
+                tainted = set()
+                for n in sorted((x for x in ast.walk(m.node) if isinstance(x, ast.Assign)), key=lambda x: x.lineno):
+                    if mentions_content(n.value, tainted):
+                        tainted |= {t.id for t in n.targets if isinstance(t, ast.Name)}
+                for n in ast.walk(m.node):
+                    if not isinstance(n, ast.If):
+                        continue
+                    tested = {x.attr for x in ast.walk(n.test) if isinstance(x, ast.Attribute) and isinstance(x.value, ast.Name) and x.value.id == "self"}
+                    for st in ast.walk(n):
+                        if not isinstance(st, (ast.Assign, ast.AnnAssign)) or st.value is None:
+                            continue
+                        for t in (st.targets if isinstance(st, ast.Assign) else [st.target]):
+                            b = t
+                            while isinstance(b, ast.Subscript):
+                                b = b.value
+                            if not (isinstance(b, ast.Attribute) and isinstance(b.value, ast.Name) and b.value.id == "self" and b.attr in tested):
+                                continue
+                            sym = f"{cq.replace('src.', '', 1)}.{m.name}:{b.attr}"
+                            if any(i["symbol"] == sym and i["rule"] == "S10" for i in run.instances):
+                                continue
+                            if mentions_content(st.value, tainted) and not mentions_content(n.test, tainted):
+                                run.finding(S10, sym, f"content-memo:{norm(n.test)}", f"{m.qual}: `{norm(st)[:90]}` is kept on an object that outlives the file and reused while `not ({norm(n.test)[:90]})`: that test looks at a key, never at the content, so after the file is edited the previous text is still served", f"{m.module.rel}:{st.lineno}")
+                            else:
+                                run.ok(S10, sym, f"guarded store `{norm(st)[:60]}`: value is not derived from file content" if not mentions_content(st.value, tainted) else "validated against the content")
 
     from . import shared
 
@@ -407,6 +445,7 @@ def _s6(run, ctx, L, S6):
             else:
                 run.ok(S6, sym, "no accumulating instance state", nontrivial=False)
     run.extra["long_lived_helper_classes"] = n_cls
+    return longlived | rule_quals
 
 
 # --------------------------------------------------------------------------- S1 helpers
